@@ -20,10 +20,27 @@ NOT_APPLICABLE = {
     'C13': 'SIN projection + Mahalanobis overlap heuristic on real trigonometry; the only discrete clause is a one-line guard (DESIGN.md section 6)',
     'C20': 'quantifies over thread interleavings of an unsynchronised static mut read; Kani does not model threads and no other symbolic engine for Rust concurrency is installed (DESIGN.md section 6)',
 }
-for _p in ('C01', 'C02', 'C03', 'C04', 'C06', 'C07', 'C08', 'C09', 'C10', 'C11', 'C14', 'C15', 'C16', 'C17', 'C19'):
+for _p in ('C01', 'C02', 'C03', 'C06', 'C07', 'C08', 'C09', 'C10', 'C11', 'C14', 'C15', 'C17', 'C19'):
     NOT_APPLICABLE.setdefault(_p, _PENDING)
 
 CHECKS = {
+    'C04': dict(
+        text='Bounded model checking per depth: for EVERY cell a and EVERY other cell c of the depth (both symbolic) the neighbour map of a is '
+             'compared with an integer plane-geometry oracle (vertex coordinates in units of 1/nside, polar-cap seam identifications): each '
+             'ordinal entry shares exactly the two vertices of that edge, each cardinal entry exactly that vertex, the number of entries is '
+             '8 minus the number of three-cell points among the vertices, neighbour(h,dir) agrees with the map, and c touches a <=> c is in the map '
+             '(which gives exactness and symmetry). Out-of-range cell numbers must panic. Seam cells are a measure-zero set that tests miss; the solver covers all pairs.',
+        design_ref='DESIGN.md section 5, C04',
+        note='Trusted: Kani/CBMC/CaDiCaL, the plane oracle (harness/common/oracles.rs). Bound: the depths listed in the evidence (quick 0..3, thorough up to 29 as they complete); '
+             'one harness per concrete depth.',
+    ),
+    'C16': dict(
+        text='Table clause only: for every IEEE double r, best_starting_depth(r) returns d with limit(d) > r and (d = 29 or limit(d+1) <= r), '
+             'has_best_starting_depth(r) <=> r < limit(0), refused radii panic, the table is strictly decreasing. Comparisons only, decided for all 2^64 doubles.',
+        design_ref='DESIGN.md section 5, C16',
+        note='NOT decided (stated): that the centre-to-vertex helpers dominate the true distances and that a cone of radius r fits in 9 cells at that depth -- '
+             'true spherical trigonometry and f64 % f64, outside the reach of a bit-precise solver. Trusted: the documented table copied into the oracle.',
+    ),
     'C18': dict(
         text='Bounded model checking at full machine width: every z-order implementation of the default build (Empty/Small/Mediu/Large LUT, '
              'LargeZOCxor) is compared with a 32-step bit-loop specification for every depth of its class and every (i, j) / every hash, in both '
